@@ -171,6 +171,14 @@ pub fn multi_source_opt_bundle(parts: &[(String, String)], adopt_orphans: bool, 
 
 /// Every observable of the pipeline for one input text, as named stages.
 pub fn full_bundle(text: &str) -> Vec<(&'static str, String)> {
+    full_bundle_opts(text, true)
+}
+
+/// `smith_seed`: also let apollo-smith generate operations against `text` as its seed document.
+/// Not done for documents that apollo-smith generated itself: with a self-referential input type in
+/// the seed and exhausted entropy its value generation recurses without bound (an observation
+/// outside the claimed properties, DESIGN.md section 8), and a stack overflow cannot be contained.
+pub fn full_bundle_opts(text: &str, smith_seed: bool) -> Vec<(&'static str, String)> {
     let mut out: Vec<(&'static str, String)> = vec![];
     out.push(("ast", ast_bundle(text, "input.graphql")));
     out.push(("mixed", mixed_bundle(text, "input.graphql")));
@@ -210,6 +218,16 @@ pub fn full_bundle(text: &str) -> Vec<(&'static str, String)> {
     out.push(("multi_source", multi_source_opt_bundle(&parts, false, false)));
     out.push(("multi_source_adopt_orphans", multi_source_opt_bundle(&parts, true, false)));
     out.push(("multi_source_ignore_builtin", multi_source_opt_bundle(&parts, false, true)));
+    // apollo-smith generating operations against this very document (as its seed)
+    if smith_seed && text.len() < 200_000 {
+        let mut st = crate::core::rng::hash_str(text) ^ 0x5EED;
+        let bytes: Vec<u8> = (0..2048).map(|_| crate::core::rng::splitmix64(&mut st) as u8).collect();
+        let r = std::panic::catch_unwind(|| smith_operations_against(text, &bytes, 3));
+        out.push((
+            "smith_against_input",
+            r.unwrap_or_else(|_| "# apollo-smith panicked on this seed document\n".to_string()),
+        ));
+    }
     let (ts_out, schema) = schema_bundle(&type_system, "schema.graphql");
     out.push(("type_system_only", ts_out));
     if let Some(schema) = &schema {
@@ -266,12 +284,17 @@ pub fn full_bundle(text: &str) -> Vec<(&'static str, String)> {
 /// apollo-smith: bytes → document text, and operation generation against a parsed document
 pub fn smith_bundle(bytes: &[u8]) -> Vec<(&'static str, String)> {
     let mut out = vec![];
+    let t0 = std::time::Instant::now();
+    let dbg = std::env::var_os("VERIF_STAGE_TIMES").is_some();
     let mut u = arbitrary::Unstructured::new(bytes);
     let text = match apollo_smith::DocumentBuilder::new(&mut u).build() {
         Ok(doc) => String::from(doc),
         Err(e) => format!("# smith error {e}"),
     };
     out.push(("smith_document", text.clone()));
+    if dbg {
+        dbg_line(format!("smith_document {} bytes -> {} chars in {:?}", bytes.len(), text.len(), t0.elapsed()));
+    }
     // operation generation against the (re-parsed) document
     let cst = apollo_parser::Parser::new(&text).parse();
     if cst.errors().len() == 0 {
@@ -305,7 +328,110 @@ pub fn smith_bundle(bytes: &[u8]) -> Vec<(&'static str, String)> {
             ));
         }
     }
+    if dbg {
+        dbg_line(format!("smith_with_document done at {:?}", t0.elapsed()));
+    }
+    // operation generation against hand-written seed documents: abstract-typed fields, fragments on
+    // several implementers / members, input objects, directives (generated documents have none of
+    // the first two)
+    for (i, seed) in SMITH_SEED_DOCUMENTS.iter().enumerate() {
+        out.push((
+            ["smith_seed_document_0", "smith_seed_document_1"][i % 2],
+            // a bounded slice of the entropy: with recursive types a long byte string yields
+            // hundreds of megabytes of selection sets
+            smith_operations_against(seed, &bytes[..bytes.len().min(1536)], 4),
+        ));
+        if dbg {
+            dbg_line(format!("seed doc {i} done at {:?} ({} chars)", t0.elapsed(), out.last().unwrap().1.len()));
+        }
+        if dbg {
+            eprintln!("seed doc {i} done at {:?} ({} chars)", t0.elapsed(), out.last().unwrap().1.len());
+        }
+    }
     out
+}
+
+fn dbg_line(s: String) {
+    use std::io::Write as _;
+    if let Ok(mut f) = std::fs::OpenOptions::new().create(true).append(true).open("/tmp/verif_stage_times.log") {
+        let _ = writeln!(f, "{s}");
+    }
+}
+
+pub const SMITH_SEED_DOCUMENTS: &[&str] = &[
+    r#"schema { query: Query }
+type Query { node: Node nodes: [Node!] item: Item title: String search(term: String): [Found] }
+interface Node { id: ID! label: String next: Node }
+interface Item implements Node { id: ID! label: String next: Node price: Float }
+type Book implements Item & Node { id: ID! label: String next: Node price: Float pages: Int }
+type Film implements Item & Node { id: ID! label: String next: Node price: Float minutes: Int }
+type Shelf implements Node { id: ID! label: String next: Node books: [Book] }
+type Room implements Node { id: ID! label: String next: Node shelves: [Shelf] }
+union Found = Book | Film | Shelf | Room
+fragment nodeId on Node { id }
+fragment itemPrice on Item { price }
+fragment bookPages on Book { pages }
+fragment bookLabel on Book { label }
+fragment filmMinutes on Film { minutes }
+fragment filmLabel on Film { label }
+fragment shelfBooks on Shelf { books { id } }
+fragment roomShelves on Room { shelves { id } }
+fragment foundBook on Found { ... on Book { id } }
+"#,
+    r#"schema { query: Query }
+type Query { a: A b: B u: U list(first: Int = 3, where: Where): [A!]! }
+interface A { x: Int y(arg: Color = RED): String }
+interface B { z: [Int] }
+type P implements A & B { x: Int y(arg: Color = RED): String z: [Int] p: Boolean }
+type Q implements A & B { x: Int y(arg: Color = RED): String z: [Int] q: ID }
+type R implements A { x: Int y(arg: Color = RED): String r: Float }
+type S implements B { z: [Int] s: String }
+union U = P | Q | R | S
+enum Color { RED GREEN }
+input Where { color: Color = GREEN tags: [String!] limit: Int }
+directive @mark(level: Int) on FIELD | FRAGMENT_SPREAD | INLINE_FRAGMENT
+fragment onA on A { x }
+fragment onB on B { z }
+fragment onP on P { p }
+fragment onP2 on P { x }
+fragment onQ on Q { q }
+fragment onR on R { r }
+fragment onS on S { s }
+fragment onU on U { __typename }
+"#,
+];
+
+/// `DocumentBuilder::with_document(bytes, seed)` → a few generated operations, as text
+pub fn smith_operations_against(seed_text: &str, bytes: &[u8], n: usize) -> String {
+    let cst = apollo_parser::Parser::new(seed_text).parse();
+    if cst.errors().len() != 0 {
+        return "# seed document has syntax errors\n".into();
+    }
+    let doc = match apollo_smith::Document::try_from(cst.document()) {
+        Ok(d) => d,
+        Err(e) => return format!("# seed document not accepted: {e}\n"),
+    };
+    let mut u = arbitrary::Unstructured::new(bytes);
+    let mut s = String::new();
+    match apollo_smith::DocumentBuilder::with_document(&mut u, doc) {
+        Ok(mut b) => {
+            for _ in 0..n {
+                match b.operation_definition() {
+                    Ok(Some(op)) => {
+                        s.push_str(&String::from(op));
+                        s.push('\n');
+                    }
+                    Ok(None) => s.push_str("# none\n"),
+                    Err(e) => {
+                        s.push_str(&format!("# err {e}\n"));
+                        break;
+                    }
+                }
+            }
+        }
+        Err(e) => s.push_str(&format!("# smith error {e}\n")),
+    }
+    s
 }
 
 /// Executable document built from several sources, then validated
